@@ -1657,10 +1657,11 @@ fn run_case_x(ctx: &mut Ctx, c: &Case, mode: Mode) -> Option<Vec<usize>> {
 
 // ------------------------------------------------------------------ K9: part weight x tasks
 
-/// Suffix of the signature of the known finding K9 (KNOWN_FINDINGS.json matches only this).
+/// Suffix of the signature of finding K9 (KNOWN_FINDINGS.json: fixed, so it suppresses nothing).
 const K9_TAG: &str = " @part-weight-x-tasks-overflows";
 
-/// K9 (arc_swap.rs, not repaired): at the end of a pass the per-task part-weight arrays are summed
+/// K9 (arc_swap.rs, repaired in /repo 192ea31; the tag is kept so that a return of the defect is
+/// named): before the repair, at the end of a pass the per-task part-weight arrays were summed
 /// (`*pw1 += pw2` in the rayon reduce) and `PW <- sum - (thread_count - 1) * PW` is computed in the
 /// weight type.  A task's copy of a part weight never exceeds `PW + (max_part_weight - PW) /
 /// thread_count`, so the sum over the tasks is at most `thread_count x max(PW, max_part_weight)`.
